@@ -206,10 +206,10 @@ class NP:
         return _np.isclose(a, b, rtol=rtol, atol=atol)
 
 
-for _k in ("cos sin tan arccos arcsin arctan arctan2 sqrt cbrt degrees radians deg2rad rad2deg sinh cosh arctanh arccosh arcsinh log").split():
+for _k in ("cos sin tan arccos arcsin arctan arctan2 sqrt cbrt degrees radians deg2rad rad2deg sinh cosh arctanh arccosh arcsinh log floor").split():
     setattr(NP, _k, staticmethod(_method(_k)))
 
-_FUNCS = ("cos sin tan arccos arcsin arctan arctan2 sqrt cbrt degrees radians deg2rad rad2deg sinh cosh arctanh arccosh arcsinh log").split()
+_FUNCS = ("cos sin tan arccos arcsin arctan arctan2 sqrt cbrt degrees radians deg2rad rad2deg sinh cosh arctanh arccosh arcsinh log floor").split()
 
 
 def load(modname, extra=None):
